@@ -1,6 +1,6 @@
 (* Props/C11.v -- property C11: requests built inside a dialog follow RFC 3261 sec. 12.2.1.1 *)
 From Coq Require Import List NArith.
-From EZK Require Import Model.Forms9 Proofs.Forms9 Gen.Tables Lib.Bytes Model.C11 Proofs.C11.
+From EZK Require Import Model.Forms10 Proofs.Forms10 Model.Forms9 Proofs.Forms9 Gen.Tables Lib.Bytes Model.C11 Proofs.C11.
 Import ListNotations.
 Open Scope N_scope.
 
@@ -83,3 +83,14 @@ Proof. exact refresh_acks_here. Qed.
 
 Theorem C11_refresh_ack_cached_refuted : forall a b r, a <> b -> nth 1 (refresh_acks_form false (a :: b :: r)) 0%N <> b.
 Proof. exact refresh_ack_cached. Qed.
+
+(* "the remote target (peer Contact) as Request-URI": on the callee side it is the Contact of the INVITE; a Contact in the ACK does not move it *)
+Theorem C11_callee_target_guard : Tables.callee_target_from_invite = true.
+Proof. reflexivity. Qed.
+
+Theorem C11_callee_target_is_invites_contact : Tables.callee_target_from_invite = true ->
+  forall (A : Type) (invite_contact : A) ack_contact, callee_target invite_contact ack_contact = invite_contact.
+Proof. exact callee_target_here. Qed.
+
+Theorem C11_ack_contact_refuted : forall (A : Type) (invite_contact c : A), invite_contact <> c -> callee_target_form false invite_contact (Some c) <> invite_contact.
+Proof. exact callee_target_moved. Qed.
